@@ -51,7 +51,7 @@ DROPPED_CALLS = ("logger.", "logging.", "print", "gc.collect", "self._debug", "s
                  "self._error", "timer.", "warnings.simplefilter")
 
 
-SPEC_ARG_INTRINSICS = {"requires", "assume", "ensures", "implies", "iff", "ite", "forall", "exists"}
+SPEC_ARG_INTRINSICS = {"requires", "assume", "ensures", "implies", "iff", "ite", "forall", "exists", "ssum", "array_of", "pointwise"}
 
 
 class Intrinsic:
@@ -186,6 +186,7 @@ class Interp:
         self.trusted_used = set()           # library models / axioms used
         self.contracts_used = set()
         self.tolerant = 0                   # >0: float comparisons with tolerance (replay of clauses)
+        self.lemmas_used = set()
 
     # ------------------------------------------------------------------ util
     @property
@@ -896,7 +897,8 @@ class Interp:
         if isinstance(f, types.FunctionType) and self.is_analysed(f):
             return self.call_analysed(f, args, kwargs, node, frame)
         m = self.models.lookup_model(f)
-        if m is not None:
+        if m is not None and not self.concrete and (deep_sym(args) or deep_sym(kwargs) or _has_fraction(args)
+                                                    or _has_fraction(kwargs.values())):
             self.trusted_used.add("model:" + m.__name__)
             return m(self, *args, **kwargs)
         if isinstance(f, type) and f.__module__.startswith("typhon") and not self.concrete:
@@ -948,6 +950,15 @@ class Interp:
             raise
         except Exception as exc:
             raise PyRaise(exc)
+
+
+def _has_fraction(vals, depth=0):
+    for v in vals:
+        if isinstance(v, fractions.Fraction):
+            return True
+        if depth < 2 and isinstance(v, (list, tuple)) and _has_fraction(v, depth + 1):
+            return True
+    return False
 
 
 def _dotted(node):
